@@ -415,11 +415,17 @@ def handleDEC (args : List Val) : String := Id.run do
   let mut s : DE V Float := { pop := pop, popE := pop.map (fun _ => inf), best := pop.headD [], bestE := inf, log := [], stepLog := [] }
   let mut outs : Array String := #[]
   for g in gens do
-    let some gargs := g.asList? | return "bad-op"
+    let some (.sym tag :: gargs) := g.asList? | return "bad-op"
     let some cfg := (kw? gargs "cfg").bind Val.asList? | return "bad-op"
     let some su := parseSetup cfg | return "bad-op"
-    let redec := ((kw? gargs "redec").bind Val.asBool?).getD false
     let allclip := ((kw? gargs "allclip").bind Val.asBool?).getD false
+    if tag == "redec" then
+      -- a Step that re-decorated the objective and then found the solver stopped: only the population surgery happens
+      match su.box with
+      | some b => s := { s with pop := redecPop b allclip s s.pop }
+      | none => pure ()
+      continue
+    let redec := ((kw? gargs "redec").bind Val.asBool?).getD false
     let two := ((kw? gargs "two").bind Val.asBool?).getD false
     let s0 := s
     let pre : List V → List V := match su.box with
@@ -435,9 +441,59 @@ def handleDEC (args : List Val) : String := Id.run do
   let last := match s.log.getLast? with | some p => "(" ++ pFs p.1 ++ " " ++ pF p.2 ++ ")" | none => "none"
   return s!"ok steps=({" ".intercalate outs.toList}) lastlog={last} hist={pFs (s.stepLog.map Prod.snd)} logsum={logSum s.log}"
 
+/-! ### Nelder-Mead, reconfigured: `nmc (x0 (..)) (radius f) (gens ((gen (cfg <setup>) (redec b) (inplace b)) ..))`
+    one `gen` per PERFORMED iteration with the settings in force at that iteration.  Re-decoration under strict ranges
+    (scipy_optimize.py l.201-212): before generation 1 only `population[0]` is clipped; from generation 1 on the whole
+    simplex is REBUILT around the clipped `population[0]` (`_setSimplexWithinRangeBoundary()`, default radius) while
+    `popEnergy` is kept - the model follows the code (known finding F20: members then carry stale energies). -/
+
+def redecSimplex (b : Box) (k : Nat) (sx : List (V × Float)) : List (V × Float) :=
+  NM.redecorate b.clip0 (mkVal (some b) 0.05) 0.0 k sx
+
+def handleNMC (args : List Val) : String := Id.run do
+  let some x0 := (kw? args "x0").bind Val.asFloats? | return "bad-op"
+  let some radius := (kw? args "radius").bind Val.asFloat? | return "bad-op"
+  let some gens := (kw? args "gens").bind Val.asList? | return "bad-op"
+  let n := Float.ofNat x0.length
+  let c : Coef Float := { one := 1.0, rho := 1.0, chi := 2.0, psi := 0.5, sigma := 0.5, n := n }
+  let mut outs : Array String := #[]
+  let mut s : NM Float Float := default
+  let mut k := 0
+  for g in gens do
+    let some (.sym tag :: gargs) := g.asList? | return "bad-op"
+    let some cfg := (kw? gargs "cfg").bind Val.asList? | return "bad-op"
+    let some su := parseSetup cfg | return "bad-op"
+    if tag == "redec" then
+      match su.box with
+      | some b => s := { s with simplex := redecSimplex b k s.simplex }
+      | none => pure ()
+      continue
+    let redec := ((kw? gargs "redec").bind Val.asBool?).getD false
+    let mut_ := ((kw? gargs "inplace").bind Val.asBool?).getD false
+    let o := su.obj
+    let st : V → V := if mut_ then o.K else id
+    let clip0 : V → V := match su.box with | some b => b.clip0 | none => id
+    if k = 0 then
+      s := NM.gen0 o 0.0 (clip0 x0)
+      outs := outs.push (showNM s "init")
+    else
+      let s0 : NM Float Float := match su.box with
+        | some b => if redec then { s with simplex := redecSimplex b k s.simplex } else s
+        | none => s
+      if k = 1 then
+        s := NM.gen1 o clip0 (mkVal su.box radius) s0
+        outs := outs.push (showNM s "build")
+      else
+        let r := NM.update o c st s0
+        s := r.1
+        outs := outs.push (showNM s (branchName r.2))
+    k := k + 1
+  return s!"ok steps=({" ".intercalate outs.toList}) log={pPairs (s.log.drop (s.log.length - 3))} hist={pFs (s.stepLog.map Prod.snd)} logsum={logSum s.log}"
+
 def handle : Handler
   | .sym "de" :: args => handleDE args
   | .sym "dec" :: args => handleDEC args
+  | .sym "nmc" :: args => handleNMC args
   | .sym "nm" :: args => handleNM args
   | .sym "ctl" :: args => handleCtl args
   | .sym "pw" :: args => handlePw args
